@@ -414,6 +414,61 @@ func stRead(w *TraceWriter, schema string, in []byte, seeds []int, note string) 
 		val = readValJSON(v, seeds)
 	}
 	w.Ev("st_read", "schema", schema, "note", note, "in", projectBytes(in, seeds), "ok", ok, "n", n, "val", val, "panic", panicked)
+	if !ok || panicked {
+		return
+	}
+	// the same bytes read into a USED destination (string fields hold a sentinel, Extra holds a stale entry): fields
+	// present on the wire are replaced (a map is replaced, not merged into), absent ones keep what they had
+	const sentinel = "\x00sentinel\x00"
+	stale := func() map[string]string { return map[string]string{"\x00stale\x00": "x"} }
+	onlyStale := func(m map[string]string) bool { v, has := m["\x00stale\x00"]; return len(m) == 1 && has && v == "x" }
+	var u fastStruct
+	switch schema {
+	case "Base":
+		u = &base.Base{LogID: sentinel, Caller: sentinel, Addr: sentinel, Extra: stale()}
+	case "BaseResp":
+		u = &base.BaseResp{StatusMessage: sentinel, Extra: stale()}
+	default:
+		u = thrift.NewApplicationException(0, sentinel)
+	}
+	ok2, n2, pan2 := false, 0, false
+	func() {
+		defer func() {
+			if p := recover(); p != nil {
+				pan2 = true
+			}
+		}()
+		k, err := u.FastRead(in)
+		ok2, n2 = err == nil, k
+	}()
+	val2 := Raw("{}")
+	if ok2 && !pan2 {
+		unsent := func(s *string) {
+			if *s == sentinel {
+				*s = ""
+			}
+		}
+		switch x := u.(type) {
+		case *base.Base:
+			unsent(&x.LogID)
+			unsent(&x.Caller)
+			unsent(&x.Addr)
+			if onlyStale(x.Extra) {
+				x.Extra = nil
+			}
+		case *base.BaseResp:
+			unsent(&x.StatusMessage)
+			if onlyStale(x.Extra) {
+				x.Extra = nil
+			}
+		case *thrift.ApplicationException:
+			if x.Msg() == sentinel {
+				u = thrift.NewApplicationException(x.TypeID(), "")
+			}
+		}
+		val2 = readValJSON(u, seeds)
+	}
+	w.Ev("st_read", "schema", schema, "note", note+"-reused", "in", projectBytes(in, seeds), "ok", ok2, "n", n2, "val", val2, "panic", pan2)
 }
 
 func runStructCase(raw json.RawMessage, w *TraceWriter) {
